@@ -86,6 +86,8 @@ def items(tier: str, seed: int) -> list[Any]:
             if quick and n == 3 and pname in ("wrwr", "ww"):
                 continue
             for fr in scripts(alpha, n, nw):
+                if n == 2 and any(nm.startswith("undef") for nm, _ in fr) and not all(nm.startswith("undef") or nm in ALPHA_CORE for nm, _ in fr):
+                    continue  # undefined control words are paired with the core alphabet (and with each other) only
                 segs: list[Any] = ["one"] if n == 0 else ["one", "frames"]
                 if n and n <= 2 and not (quick and n == 2 and pname in ("ww", "wrwr")):
                     segs.append("bytes")
